@@ -32,6 +32,7 @@ func (c *Client) handleExpunge(seqNum uint32) error {
 
 	cmd := findPendingCmdByType[*ExpungeCommand](c)
 	if cmd != nil {
+		verifPoint("deliver", cmd.tag)
 		cmd.seqNums <- seqNum
 	} else if handler := c.options.unilateralDataHandler().Expunge; handler != nil {
 		handler(seqNum)
